@@ -1062,7 +1062,8 @@ class Fault(object):
         if not version:
             version = self.config.version
 
-        if rpcid:
+        if rpcid is not None:
+            # (0 is a valid request ID)
             self.rpcid = rpcid
 
         return dumps(
@@ -1084,7 +1085,8 @@ class Fault(object):
         if not version:
             version = self.config.version
 
-        if rpcid:
+        if rpcid is not None:
+            # (0 is a valid request ID)
             self.rpcid = rpcid
 
         return dump(
